@@ -52,6 +52,29 @@ pub struct Deserializer<'de> {
     term: &'de OwnedTerm,
 }
 
+/// The integer a term denotes, whichever variant carries it: integers outside the 32-bit
+/// range come back from the wire as big integers.
+fn integer_value(term: &OwnedTerm) -> Option<i128> {
+    match term {
+        OwnedTerm::Integer(i) => Some(*i as i128),
+        OwnedTerm::BigInt(big) => {
+            let significant = big.digits.iter().rposition(|&d| d != 0).map_or(0, |p| p + 1);
+            if significant > 15 {
+                return None;
+            }
+            let mut bytes = [0u8; 16];
+            bytes[..significant].copy_from_slice(&big.digits[..significant]);
+            let magnitude = i128::from_le_bytes(bytes);
+            Some(if big.sign.is_negative() {
+                -magnitude
+            } else {
+                magnitude
+            })
+        }
+        _ => None,
+    }
+}
+
 impl<'de> Deserializer<'de> {
     fn expect_atom(&self, expected: &str) -> Result<&Atom> {
         match self.term {
@@ -125,6 +148,10 @@ impl<'de> SerdeDeserializer<'de> for &mut Deserializer<'de> {
             OwnedTerm::Integer(i) => i8::try_from(*i)
                 .map_err(|_| Error::InvalidValue(format!("integer {} out of range for i8", i)))
                 .and_then(|v| visitor.visit_i8(v)),
+            OwnedTerm::BigInt(_) => integer_value(self.term)
+                .and_then(|i| i8::try_from(i).ok())
+                .ok_or_else(|| Error::InvalidValue("big integer out of range for i8".into()))
+                .and_then(|v| visitor.visit_i8(v)),
             _ => Err(Error::TypeMismatch {
                 expected: "integer".into(),
                 found: format!("{:?}", self.term),
@@ -136,6 +163,10 @@ impl<'de> SerdeDeserializer<'de> for &mut Deserializer<'de> {
         match self.term {
             OwnedTerm::Integer(i) => i16::try_from(*i)
                 .map_err(|_| Error::InvalidValue(format!("integer {} out of range for i16", i)))
+                .and_then(|v| visitor.visit_i16(v)),
+            OwnedTerm::BigInt(_) => integer_value(self.term)
+                .and_then(|i| i16::try_from(i).ok())
+                .ok_or_else(|| Error::InvalidValue("big integer out of range for i16".into()))
                 .and_then(|v| visitor.visit_i16(v)),
             _ => Err(Error::TypeMismatch {
                 expected: "integer".into(),
@@ -149,6 +180,10 @@ impl<'de> SerdeDeserializer<'de> for &mut Deserializer<'de> {
             OwnedTerm::Integer(i) => i32::try_from(*i)
                 .map_err(|_| Error::InvalidValue(format!("integer {} out of range for i32", i)))
                 .and_then(|v| visitor.visit_i32(v)),
+            OwnedTerm::BigInt(_) => integer_value(self.term)
+                .and_then(|i| i32::try_from(i).ok())
+                .ok_or_else(|| Error::InvalidValue("big integer out of range for i32".into()))
+                .and_then(|v| visitor.visit_i32(v)),
             _ => Err(Error::TypeMismatch {
                 expected: "integer".into(),
                 found: format!("{:?}", self.term),
@@ -159,6 +194,10 @@ impl<'de> SerdeDeserializer<'de> for &mut Deserializer<'de> {
     fn deserialize_i64<V: Visitor<'de>>(self, visitor: V) -> Result<V::Value> {
         match self.term {
             OwnedTerm::Integer(i) => visitor.visit_i64(*i),
+            OwnedTerm::BigInt(_) => integer_value(self.term)
+                .and_then(|i| i64::try_from(i).ok())
+                .ok_or_else(|| Error::InvalidValue("big integer out of range for i64".into()))
+                .and_then(|v| visitor.visit_i64(v)),
             _ => Err(Error::TypeMismatch {
                 expected: "integer".into(),
                 found: format!("{:?}", self.term),
@@ -170,6 +209,10 @@ impl<'de> SerdeDeserializer<'de> for &mut Deserializer<'de> {
         match self.term {
             OwnedTerm::Integer(i) => u8::try_from(*i)
                 .map_err(|_| Error::InvalidValue(format!("integer {} out of range for u8", i)))
+                .and_then(|v| visitor.visit_u8(v)),
+            OwnedTerm::BigInt(_) => integer_value(self.term)
+                .and_then(|i| u8::try_from(i).ok())
+                .ok_or_else(|| Error::InvalidValue("big integer out of range for u8".into()))
                 .and_then(|v| visitor.visit_u8(v)),
             _ => Err(Error::TypeMismatch {
                 expected: "integer".into(),
@@ -183,6 +226,10 @@ impl<'de> SerdeDeserializer<'de> for &mut Deserializer<'de> {
             OwnedTerm::Integer(i) => u16::try_from(*i)
                 .map_err(|_| Error::InvalidValue(format!("integer {} out of range for u16", i)))
                 .and_then(|v| visitor.visit_u16(v)),
+            OwnedTerm::BigInt(_) => integer_value(self.term)
+                .and_then(|i| u16::try_from(i).ok())
+                .ok_or_else(|| Error::InvalidValue("big integer out of range for u16".into()))
+                .and_then(|v| visitor.visit_u16(v)),
             _ => Err(Error::TypeMismatch {
                 expected: "integer".into(),
                 found: format!("{:?}", self.term),
@@ -194,6 +241,10 @@ impl<'de> SerdeDeserializer<'de> for &mut Deserializer<'de> {
         match self.term {
             OwnedTerm::Integer(i) => u32::try_from(*i)
                 .map_err(|_| Error::InvalidValue(format!("integer {} out of range for u32", i)))
+                .and_then(|v| visitor.visit_u32(v)),
+            OwnedTerm::BigInt(_) => integer_value(self.term)
+                .and_then(|i| u32::try_from(i).ok())
+                .ok_or_else(|| Error::InvalidValue("big integer out of range for u32".into()))
                 .and_then(|v| visitor.visit_u32(v)),
             _ => Err(Error::TypeMismatch {
                 expected: "integer".into(),
